@@ -273,3 +273,98 @@ Proof.
       pose proof (md_unapply_range _ _ _ _ Eu) as M2. destruct (static_find _ _ x bx1 (proj1 M2) Fx1) as (bx2 & Fx2).
       exists bx2. split; [exact Fx2|]. rewrite (proj1 (md_nobody_failed _ _ _ _ _ M2 Fx1 Fx2)). exact Hfx1.
 Qed.
+
+Lemma anc_valid : forall s to bto, wf s -> scoh s ->
+    bfind (blocks _ _ s) to = Some bto -> is_failed _ bto = false ->
+    forall i, Z.of_nat i <= dep s to ->
+    exists b, bfind (blocks _ _ s) (up (cores s) i to) = Some b /\ is_failed _ b = false.
+Proof.
+  intros s to bto W C Fto Hv. pose proof (find_cfind _ _ _ Fto) as Cto.
+  destruct (dep_facts s to _ W C Cto) as (_ & _ & Hmin).
+  induction i as [|i IH]; intros Hi.
+  - exists bto. cbn. split; assumption.
+  - destruct IH as (b & Fb & Hf); [lia|].
+    assert (Hnr : up (cores s) i to <> root _ _ s) by (apply Hmin; lia).
+    pose proof (find_cfind _ _ _ Fb) as Cb. destruct (wf_closed s W _ _ Cb) as (pe & Hpe). destruct (core_find _ _ _ Hpe) as (pb & Fpb & _).
+    change (e_par (core b)) with (b_par ccmd b) in Fpb.
+    rewrite up_succ_r. unfold parent. rewrite Cb. change (e_par (core b)) with (b_par ccmd b).
+    exists pb. split; [exact Fpb|]. destruct C as (_ & _ & C1 & _).
+    destruct (is_failed ccmd pb) eqn:Fp; [|reflexivity]. exfalso. pose proof (C1 _ _ _ Fb Hnr Fpb Fp) as Hfc.
+    unfold is_failed in Hf. rewrite Hfc in Hf. rewrite !orb_true_r in Hf. discriminate.
+Qed.
+
+Lemma failed_down : forall s b eb, wf s -> scoh s -> cfind (cores s) b = Some eb ->
+    forall i, Z.of_nat i <= dep s b -> failed_in s (up (cores s) i b) -> failed_in s b.
+Proof.
+  intros s b eb W C Hb. destruct (dep_facts s b _ W C Hb) as (_ & _ & Hmin).
+  induction i as [|i IH]; intros Hi Hf; [exact Hf|]. apply IH; [lia|].
+  destruct (up_hgt_dep s b eb i W C Hb ltac:(lia)) as (_ & (ei & Hei)). destruct (core_find _ _ _ Hei) as (bi & Fbi & Cbi).
+  assert (Hnr : up (cores s) i b <> root _ _ s) by (apply Hmin; lia).
+  destruct Hf as (pb & Fpb & Hpf). rewrite up_succ_r in Fpb. unfold parent in Fpb. rewrite Hei, <- Cbi in Fpb. change (e_par (core bi)) with (b_par ccmd bi) in Fpb.
+  exists bi. split; [exact Fbi|]. destruct C as (_ & _ & C1 & _). pose proof (C1 _ _ _ Fbi Hnr Fpb Hpf) as Hfc.
+  unfold is_failed. rewrite Hfc. apply orb_true_r.
+Qed.
+
+Lemma apply_gen : forall base s a b m eb,
+    alone s a -> ginv base s -> cfind (cores s) b = Some eb ->
+    a = up (cores s) m b -> Z.of_nat m <= dep s b ->
+    (forall i, (i < m)%nat -> on_active_chain pstate ccmd s (up (cores s) i b) = false) ->
+    exists s' ok, apply pstate ccmd cexec cunexec s a b = Ok (s', ok) /\ ginv base s' /\ frame s s' /\
+                  (ok = true -> alone s' b) /\ (ok = false -> alone s' a /\ failed_in s' b).
+Proof.
+  intros base s a b m eb A G Hb Ha Hm Hoac. pose proof (proj1 (alone_unfold _ _) A) as (W & Ta & Hn). pose proof G as ((_ & C) & _ & _).
+  destruct m as [|m].
+  { cbn in Ha. subst a. exists s, true. unfold apply. rewrite N.eqb_refl. split; [reflexivity|]. split; [exact G|].
+    split; [apply frame_refl; exact W|]. split; [intros _; exact A|discriminate]. }
+  destruct (up_hgt_dep s b eb (S m) W C Hb Hm) as (Hha & (ea & Hea)). rewrite <- Ha in Hha, Hea.
+  assert (Hfound : forall i, (i < S m)%nat -> exists e, cfind (cores s) (up (cores s) i b) = Some e).
+  { intros i Hi. apply (up_hgt_dep s b eb i W C Hb). lia. }
+  unfold apply.
+  assert (Hab : N.eqb a b = false) by (apply N.eqb_neq; intro Heq; rewrite Heq in Hha; lia).
+  rewrite Hab. destruct (core_find _ _ _ Hea) as (ba & Fa & Ca). destruct (core_find _ _ _ Hb) as (bb & Fb & Cbb). rewrite Fa, Fb.
+  destruct (is_failed ccmd bb) eqn:Hfb.
+  { exists s, false. split; [reflexivity|]. split; [exact G|]. split; [apply frame_refl; exact W|]. split; [discriminate|].
+    intros _. split; [exact A|]. exists bb. split; assumption. }
+  assert (Hhb : hgt (cores s) b = b_h ccmd bb) by (unfold hgt; rewrite Hb, <- Cbb; reflexivity).
+  assert (Hha' : hgt (cores s) a = b_h ccmd ba) by (unfold hgt; rewrite Hea, <- Ca; reflexivity).
+  assert (Hlt : negb (Z.ltb (b_h ccmd ba) (b_h ccmd bb)) = false) by (apply negb_false_iff; apply Z.ltb_lt; lia).
+  rewrite Hlt.
+  assert (Hn' : Z.to_nat (b_h ccmd bb - b_h ccmd ba) = S m) by lia. rewrite Hn'.
+  rewrite (path_up_seq s (S m) b Hfound).
+  set (upl := map (fun i => up (cores s) i b) (seq 0 (S m))).
+  assert (Eup : path_up ccmd (blocks pstate ccmd s) (S m) b = Some upl) by (apply path_up_seq; exact Hfound).
+  assert (Hne : upl <> []) by (unfold upl; cbn; discriminate).
+  assert (Hlast : last upl b = up (cores s) m b) by (unfold upl; rewrite seq_S, map_app; cbn; apply last_last).
+  destruct (rev upl) as [|x r] eqn:Erev.
+  { exfalso. apply Hne. rewrite <- (rev_involutive upl), Erev. reflexivity. }
+  assert (Hx : x = up (cores s) m b).
+  { rewrite <- Hlast. rewrite <- (rev_involutive upl), Erev. cbn [rev]. symmetry. apply last_last. }
+  destruct (Hfound m ltac:(lia)) as (ex & Hex). rewrite <- Hx in Hex. destruct (core_find _ _ _ Hex) as (bx & Fx & Cx). rewrite Fx.
+  assert (Hpx : b_par ccmd bx = a).
+  { rewrite Ha. rewrite up_succ_r, <- Hx. unfold parent. rewrite Hex, <- Cx. reflexivity. }
+  apply N.eqb_eq in Hpx. rewrite Hpx. apply N.eqb_eq in Hpx.
+  destruct (path_up_linked s (S m) b upl a Eup (fun _ _ _ _ _ => I)) as [L Lb].
+  { exists bx. rewrite Hlast, <- Hx. split; assumption. }
+  { exact Hne. }
+  rewrite Erev in L, Lb.
+  destruct (dep_facts s b _ W C Hb) as (_ & _ & Hmin).
+  assert (Hidx : forall y, In y (x :: r) -> exists i, (i < S m)%nat /\ y = up (cores s) i b).
+  { intros y Hy. rewrite <- Erev in Hy. apply in_rev in Hy. unfold upl in Hy. apply in_map_iff in Hy. destruct Hy as (i & <- & Hi).
+    apply in_seq in Hi. exists i. split; [lia|reflexivity]. }
+  assert (Htry : forall y, In y (x :: r) -> tryblk s y).
+  { intros y Hy. destruct (Hidx y Hy) as (i & Hi & ->). split; [apply Hmin; lia|]. split; [|apply Hoac; exact Hi].
+    apply (anc_valid s b bb W C Fb Hfb). lia. }
+  destruct (apply_path_gen base (x :: r) s a a O A G L eq_refl) as (s' & ok & E' & G' & F' & Ht' & Hf').
+  { destruct (dep_facts s a _ W C Hea) as (D0 & _). lia. }
+  { exact Htry. }
+  exists s', ok. split; [exact E'|]. split; [exact G'|]. split; [exact F'|]. split.
+  - intros Hok. rewrite <- Lb. apply Ht'. exact Hok.
+  - intros Hok. destruct (Hf' Hok) as (Af & (y & Hy & Fy)). split; [exact Af|].
+    destruct (Hidx y Hy) as (i & Hi & ->). pose proof G' as ((W' & C') & _ & _). pose proof (fr_static _ _ F') as S'.
+    rewrite <- (up_static _ _ i b S') in Fy.
+    assert (Hb' : exists eb', cfind (cores s') b = Some eb').
+    { pose proof (S' b) as Sb. unfold sfind in Sb. rewrite Hb in Sb. destruct (cfind (cores s') b); [eexists; reflexivity|discriminate]. }
+    destruct Hb' as (eb' & Hb').
+    eapply (failed_down s' b eb' W' C' Hb' i); [|exact Fy].
+    unfold dep in *. rewrite (fr_root _ _ F'), !(hgt_static _ _ _ S'). lia.
+Qed.
